@@ -5,6 +5,7 @@ cd /verif
 names=${@:-$(ls seeded | grep -v SUMMARY)}
 for n in $names; do
   d=seeded/$n; [ -f $d/patch.diff ] || continue
+  if grep -q '"obsolete_after_fix"' $d/meta.json; then echo "$n: skipped (made harmless by a later fix, see meta.json)"; continue; fi
   prop=$(python3 -c "import json;print(json.load(open('$d/meta.json'))['property'])")
   extra=$(python3 -c "import json;print(' '.join(json.load(open('$d/meta.json')).get('also_run',[])))")
   git -C /repo apply /verif/$d/patch.diff || { echo "$n: PATCH DOES NOT APPLY"; continue; }
